@@ -151,7 +151,6 @@ LAYOUT_OPTS = [
     {"reindent_aligned": True},
     {"strip_whitespace": True},
     {"use_space_around_operators": True},
-    {"reindent": True, "right_margin": 40},
     {"reindent": True, "use_space_around_operators": True,
      "comma_first": True, "wrap_after": 30},
 ]
@@ -231,8 +230,6 @@ def draw_opts(rng):
         o["truncate_strings"] = rng.choice([2, 4, 10])
     if rng.random() < 0.1:
         o["output_format"] = rng.choice(["python", "php", "sql"])
-    if rng.random() < 0.08:
-        o["right_margin"] = rng.choice([10, 30, 80])
     return o
 
 
